@@ -67,3 +67,9 @@ mk d55_batch_lines_follow_edits     C18-batch-update-stale-lines               f
 mk d56_tautology_excludes_null_only C16-tautology-skips-empty-strings          fix_c16k.py
 mk d57_file_args_deduped_exact      C19-file-args-deduped-case-folded          fix_c19k.py
 mk d58_cr_lf_crlf_line_starts       C05-cr-line-starts-crlf-offset             fix_c05k.py
+mk d59_lower_version_logged_applied C18-stale-version-change-dropped          fix_c18m.py
+mk d60_view_error_where_parser_stopped C05-view-query-error-located-at-select fix_c05m.py
+mk d61_ctx_defer_right_after_store  C08-ctx-stored-before-entry-check          fix_c08m.py
+mk d62_limit_atoi_structured        C13-limit-offset-atoi-unstructured         fix_c13m.py
+mk d63_upsert_children_by_index     C14-upsert-children-shared-variable        fix_c14m.py
+mk d64_indent_prefix_of_part_text   C01-redundant-whitespace-indent-slice      fix_c01m.py
